@@ -208,9 +208,23 @@ pub fn schedule_parse(t: &str) -> Vec<Step> {
 
 pub fn rand_wschedule(r: &mut Rng, len: usize) -> Vec<WStep> {
     let mut s = Vec::new();
-    let style = r.below(5);
+    let style = r.below(6);
     let mut left = len;
     let mut guard = 0;
+    if style == 5 {
+        // a short first write (inside the packet head), an optional stall, then the sink takes the rest
+        // in one or two large writes: what a nearly full socket buffer does to a pipelined sender
+        let k = r.range(1, 24.min(len.max(1)));
+        s.push(WStep::Accept(k));
+        if r.bool() {
+            s.push(WStep::Pending);
+        }
+        if r.bool() && len > k + 1 {
+            s.push(WStep::Accept(r.range(1, len - k)));
+        }
+        s.push(WStep::Accept(len));
+        return s;
+    }
     while left > 0 && guard < 4096 {
         guard += 1;
         if r.chance(1, 4) {
